@@ -1010,6 +1010,17 @@ func (s *Service) copyECObjectRangeByRule(ctx context.Context, dst ChunkWriter, 
 	defer cancel()
 
 	partHdr, firstPartStream, err := s.getECPartStream(stageCtx, cnr, parent, rule, ruleIdx, sortedNodes, 0)
+	for partIdx := 1; err != nil && partIdx < int(rule.DataPartNum+rule.ParityPartNum); partIdx++ {
+		// any part carries the parent header; part #0 may be the unavailable one
+		if errors.Is(err, apistatus.ErrObjectAlreadyRemoved) || errors.Is(err, apistatus.ErrObjectAccessDenied) ||
+			errors.Is(err, stageCtx.Err()) || errors.As(err, new(*object.SplitInfoError)) {
+			break
+		}
+		var rc io.ReadCloser
+		if partHdr, rc, err = s.getECPartStream(stageCtx, cnr, parent, rule, ruleIdx, sortedNodes, partIdx); err == nil && rc != nil {
+			rc.Close()
+		}
+	}
 	if err != nil {
 		return 0, 0, fmt.Errorf("resolve parent payload length: %w", err)
 	}
